@@ -36,6 +36,7 @@ func TestVerifC03Race(t *testing.T) {
 	defer verifrt.SetJitter(0)
 	verifrt.SetLockSpinLimit(2_000_000) // holders keep f.mu for micro- to milliseconds: <= ~1e3 attempts
 	defer verifrt.SetLockSpinLimit(0)
+	stuckRounds := 0
 	for rd := 0; rd < rounds; rd++ {
 		if !verifrt.WantCase(check, rd) {
 			continue
@@ -93,9 +94,9 @@ func TestVerifC03Race(t *testing.T) {
 		}
 		G := 8 + rnd.Intn(41)
 		// logical bound on spinning: a healthy round makes ~3e5 loop iterations
-		// in the instrumented code (lock-bit waits included); 2e8 means a
+		// in the instrumented code (lock-bit waits included); 5e7 means a
 		// goroutine waits for something that will never happen
-		verifrt.SetTickBudget(200_000_000)
+		verifrt.SetTickBudget(50_000_000)
 		for g := 0; g < G; g++ {
 			g := g
 			kind := g % 8
@@ -141,13 +142,23 @@ func TestVerifC03Race(t *testing.T) {
 		res.Eval()
 		rp := verifrt.CaseReplay(rd, map[string]any{"goroutines": G, "counters": nctr, "preopen": preOpen})
 		bad := false
+		stuck := false
 		faults.Range(func(k, v any) bool {
 			parts := strings.SplitN(v.(string), "|", 3)
 			sig := parts[0] + ":free-running:" + parts[1]
 			res.Violate(sig, fmt.Sprintf("worker %v: %s", k, parts[2]), rp)
 			bad = true
+			stuck = stuck || parts[0] == "spin-forever" || parts[0] == "lock-wait-forever"
 			return true
 		})
+		if stuck {
+			// every such round burns the whole spin budget: two of them are verdict
+			// enough, the remaining rounds would only repeat it
+			if stuckRounds++; stuckRounds >= 2 {
+				res.Hit("stopped-early-after-two-stuck-rounds")
+				break
+			}
+		}
 		if !bad {
 			if !preOpen && f.current.Load() == nil {
 				f.rotate1() // make sure a file is open at quiescence
